@@ -556,7 +556,9 @@ func (fe *FnExec) tid(t types.Type) int {
 	}
 	n := len(fe.tids) + 1
 	fe.tids[k] = n
+	fe.eng.mu.Lock()
 	fe.eng.tidTypes[k] = t
+	fe.eng.mu.Unlock()
 	return n
 }
 
